@@ -622,7 +622,7 @@ CHECK = Check(
         "step k<n, as task.cancel() and from an enclosing scope (exhaustive per scenario); non-trivial = a cancellation "
         "landed strictly between the first and the last await; distinct = sha1(scenario)"
     ),
-    layers=[Layer("close-paths", st_case, run_case, {"quick": 120, "thorough": 500})],
+    layers=[Layer("close-paths", st_case, run_case, {"quick": 300, "thorough": 1000})],
     assumptions=[
         "underlying transports are in-memory objects whose aclose() marks them closed synchronously when called (as the asyncio adapter does with transport.close())",
         "a step is one resumption of the close coroutine by the event loop; the cancellation requested before step k is delivered at the first suspension reached in step k",
